@@ -40,6 +40,7 @@ const (
 	FEndCanceled   // end of run: the referenced execution's IsCanceled()
 	FEndChanClosed // end of run: its Canceled() channel is closed
 	FEndCtxErr     // end of run: its Context().Err() is set
+	FHasElapsed    // Elapsed / ElapsedAttempt were read (ExecutionAttempt observers)
 )
 
 // Event is one observation. Events are appended by the task that made the
@@ -62,6 +63,7 @@ type Event struct {
 	LastVal                               any
 	LastErr                               error
 	Start, AttemptStart                   time.Duration // relative to sim start
+	Elapsed, ElapsedAttempt               time.Duration // ElapsedTime() / ElapsedAttemptTime() at the observation (with FHasExec)
 	Ref                                   any           // object reference for end-of-run queries (execution copies, contexts)
 	Str                                   string
 	Aux                                   []int // probe exit: sequence numbers of inner-call enter events whose execution is cancelled now
